@@ -105,6 +105,152 @@ def take(it, limit=20000):
     return out
 
 
+def geometry(case):
+    N, B, DL, D = case["N"], case["B"], case["drop_last"], case.get("dlb") or case["B"]
+    spe = N // D * D if DL else N
+    return spe, -(-spe // B)
+
+
+def check_c04(case):
+    """main stream / batch cutting / stopping point only: the main-item projection of the real stream vs the statement"""
+    try:
+        s, main = build(case)
+    except (AssertionError, NotImplementedError):
+        return None
+    N = case["N"]
+    exp, ann = oracle(case)
+    got = take(iter(s))
+    gm = [(f, i) for f, i in got if i < N]
+    em = [(f, i) for f, i in exp if i < N]
+    if gm != em:
+        return {"what": "main part of the stream (indices, batch flags or stopping point) differs from the statement",
+                "case": case, "expected": em[:60], "observed": gm[:60]}
+    if case.get("has_set_epoch", True) and main.announced != ann:
+        return {"what": "announced epochs differ", "case": case, "expected": ann, "observed": main.announced}
+    if got and not got[-1][0]:
+        return {"what": "stream does not end on a batch boundary", "case": case, "observed": got[-5:]}
+    # a main batch never contains anything else / only an epoch's last batch may be short
+    open_main = 0
+    for f, i in got:
+        if i < N:
+            open_main = 0 if f else open_main + 1
+        elif open_main:
+            return {"what": "a main batch is interrupted by interleaved indices", "case": case, "observed": got[:60]}
+    return None
+
+
+def check_c05(case):
+    """side passes only: after every real update exactly the due configs follow, whole, shifted, batched, unmixed"""
+    try:
+        s, main = build(case)
+    except (AssertionError, NotImplementedError):
+        return None
+    N, B = case["N"], case["B"]
+    cfgs = case.get("configs", [])
+    got = take(iter(s))
+    offs, acc = [], N
+    for c in cfgs:
+        offs.append(acc)
+        acc += c["len"]
+
+    def pass_items(ci):
+        c = cfgs[ci]
+        ibs = c.get("bs") or B
+        seq = cfg_seq(c["len"], ci)
+        return [((k + 1) % ibs == 0 or k + 1 == len(seq), offs[ci] + x) for k, x in enumerate(seq)]
+    if case.get("epochs") == 0 or case.get("updates") == 0 or case.get("samples") == 0:
+        exp = [it for ci in range(len(cfgs)) for it in pass_items(ci)]
+        if got != exp:
+            return {"what": "zero budget does not yield exactly one full pass over every config", "case": case,
+                    "expected": exp[:60], "observed": got[:60]}
+        return None
+    spe, upe = geometry(case)
+    e = u = sm = prev = j = 0
+    pos = 0
+    while pos < len(got):
+        f, i = got[pos]
+        pos += 1
+        if i >= N:
+            return {"what": "interleaved indices appear where no update happened", "case": case, "pos": pos - 1, "observed": got[:60]}
+        sm += 1
+        j += 1
+        if not f:
+            continue
+        u += 1
+        ended = j == spe
+        if ended:
+            e += 1
+            j = 0
+        exp = []
+        for ci, c in enumerate(cfgs):
+            due = ((c.get("ene") is not None and ended and e % c["ene"] == 0) or
+                   (c.get("enu") is not None and u % c["enu"] == 0) or
+                   (c.get("ens") is not None and prev // c["ens"] < sm // c["ens"]))
+            if due:
+                exp += pass_items(ci)
+        nxt = pos
+        while nxt < len(got) and got[nxt][1] >= N:
+            nxt += 1
+        if got[pos:nxt] != exp:
+            return {"what": "side passes after an update are not exactly the due configs, whole and in order", "case": case,
+                    "update": u, "expected": exp[:40], "observed": got[pos:nxt][:40]}
+        pos = nxt
+        prev = sm
+    # index resolution and collator dispatch on the real concat dataset / collator
+    ds = s.dataset
+    for ci, c in enumerate(cfgs):
+        for k in range(c["len"]):
+            d, item = ds[offs[ci] + k]
+            if d != ci + 1 or item != k:
+                return {"what": "a shifted index does not resolve to its dataset and sample", "case": case,
+                        "index": offs[ci] + k, "observed": (d, item), "expected": (ci + 1, k)}
+    return None
+
+
+def check_c06(case):
+    """resume only: the resumed real stream is the suffix of the real uninterrupted stream"""
+    if case.get("epochs") == 0 or case.get("updates") == 0 or case.get("samples") == 0:
+        return None
+    try:
+        s, main = build(case)
+    except (AssertionError, NotImplementedError):
+        return None
+    N = case["N"]
+    spe, upe = geometry(case)
+    full = take(iter(s))
+    ann = list(main.announced)
+    for k in range(1, 4):
+        stopped = ((case.get("epochs") is not None and k >= case["epochs"]) or
+                   (case.get("updates") is not None and k * upe >= case["updates"]) or
+                   (case.get("samples") is not None and k * spe >= case["samples"]))
+        if stopped:
+            break
+        # position of the first main item of epoch k in the uninterrupted run
+        cnt, cut = 0, None
+        for pos, (f, i) in enumerate(full):
+            if i < N:
+                if cnt == k * spe:
+                    cut = pos
+                    break
+                cnt += 1
+        if cut is None:
+            break
+        for start in ({"start_epoch": k}, {"start_update": k * upe}, {"start_sample": k * spe}):
+            try:
+                s2, main2 = build(case, **start)
+            except (AssertionError, NotImplementedError):
+                continue
+            got2 = take(iter(s2))
+            if got2 != full[cut:]:
+                return {"what": f"resumed stream ({start}) is not the suffix of the uninterrupted run", "case": case,
+                        "expected": full[cut:][:60], "observed": got2[:60]}
+            exp_ann = [a for a in ann if a >= k]
+            if case.get("has_set_epoch", True) and main2.announced != exp_ann:
+                return {"what": f"resumed run ({start}) announces different epochs", "case": case,
+                        "expected": exp_ann, "observed": main2.announced}
+    return None
+
+
 def check_case(case):
     """-> None if the real code agrees with the oracle on this case, else a dict describing the mismatch"""
     try:
@@ -191,11 +337,12 @@ def neighbourhood(seed_case=None, limit=4000, rng=None):
         yield c
 
 
-def search(seed_case=None, limit=1500, seed=0):
+def search(seed_case=None, limit=1500, seed=0, check=None):
     n = 0
+    check = check or check_case
     for case in neighbourhood(seed_case, limit, random.Random(seed)):
         n += 1
-        r = check_case(case)
+        r = check(case)
         if r is not None:
             r["tried"] = n
             return r, n
